@@ -323,7 +323,21 @@ func (p c07) checkText(unit int, rc Recipe, st State, text string, only int, rep
 			if baseDiags == nil {
 				baseDiags = surplusDiags(env, st)
 			}
-			for _, ci := range []int{0, len(cands.List) - 1} {
+			// first and last candidate, plus every block type that a dynamic block of the
+			// same body generates as well (static and generated blocks share the limits)
+			picks := []int{0, len(cands.List) - 1}
+			if cls.Body != nil {
+				for _, b := range cls.Body.Blocks {
+					if b.Type == "dynamic" && len(b.Labels) > 0 {
+						for ci, c := range cands.List {
+							if c.Label == b.Labels[0] && ci != 0 && ci != len(cands.List)-1 {
+								picks = append(picks, ci)
+							}
+						}
+					}
+				}
+			}
+			for _, ci := range picks {
 				c := cands.List[ci]
 				if c.Label == "dynamic" || c.Label == "name" {
 					continue
